@@ -36,6 +36,10 @@ class C02(Harness):
             for rel in (True, False):
                 for how in ("array", "list", "index", "range") + (("int", "array-uint8") if k == 1 else (("array-uint8",) if k == 2 else ())):
                     out.append({"name": "%s-%s-k%d" % ("rel" if rel else "abs", how, k), "kind": "conv", "rel": rel, "how": how, "K": k, "cost": k * k})
+                if k == 2:
+                    # a range horizon with a small symbolic step (|step| <= 3): code that rebuilds a range from shifted
+                    # bounds turns the step into a length, which an unbounded step cannot enumerate
+                    out.append({"name": "%s-range-smallstep-k%d" % ("rel" if rel else "abs", k), "kind": "conv", "rel": rel, "how": "range", "K": k, "small_step": True, "cost": k * k})
                 if k <= 2:
                     out.append({"name": "%s-array-k%d-concrete-cutoff" % ("rel" if rel else "abs", k), "kind": "conv", "rel": rel, "how": "array", "K": k, "concrete_cutoff": True, "cost": k * k})
         out.append({"name": "faults", "kind": "faults", "cost": 1})
@@ -57,6 +61,8 @@ class C02(Harness):
             inp["r0"] = ctx.fresh_int("r0")
             inp["step"] = ctx.fresh_int("step")
             ctx.assume((inp["step"] >= -3) & (inp["step"] != 0))
+            if cell.get("small_step"):
+                ctx.assume(inp["step"] <= 3)
         else:
             inp["v"] = fresh_ints(ctx, "v", K)
             if cell["how"] == "array-uint8":
@@ -142,6 +148,10 @@ class C02(Harness):
         out["bool_scalar"] = rej(lambda: chk.check_fh(None))
         out["empty_list"] = rej(lambda: chk.check_fh([]))
         out["empty_array"] = rej(lambda: chk.check_fh(np.array([], dtype=int)))
+        # empty horizon *objects* (the constructor allows them: the in-sample part of an out-of-sample horizon ...)
+        out["empty_object"] = rej(lambda: chk.check_fh(FH([])))
+        out["empty_object_in_sample_part"] = rej(lambda: chk.check_fh(FH([1, 2]).to_in_sample()))
+        out["empty_object_absolute"] = rej(lambda: chk.check_fh(FH([v + 1, v + 2], is_relative=False).to_in_sample(v)))
         out["abs_enforce_rel"] = rej(lambda: chk.check_fh(FH([v], is_relative=False), enforce_relative=True))
         # valid twins
         out["ok_int"] = not rej(lambda: chk.check_fh(v))
